@@ -133,6 +133,7 @@ fn main() {
             history::run(&mut rep, Mode::C01, tier);
             history::concurrent(&mut rep);
             history::reentrancy(&mut rep);
+            history::at_thread_exit(&mut rep);
             deep_family(&mut rep, Mode::C01, tier);
             option_presets(&mut rep);
             rep.rule = "a state is an input prefix (node of the execution tree); every node is executed on the real parser through every entry point (13 text entry points on core nodes; parse_str/parse_slice/observed iterator on deviation nodes; parse_slice/parse_slice_with on byte nodes) and the verdict compared with R-pda (+ surrogate well-formedness, + core::str::from_utf8 for bytes); children only below viable prefixes, post-mortem horizon 2 below dead nodes; non-trivial = distinct inputs".into();
@@ -207,6 +208,7 @@ fn main() {
             pump_family(&mut rep, Mode::C03, tier);
             history::run(&mut rep, Mode::C03, tier);
             history::reentrancy(&mut rep);
+            history::at_thread_exit(&mut rep);
             history::source_hints(&mut rep);
             pump::run(&mut rep, tier);
             rep.rule = "totality: every node of the trees, every byte string of length <= 3 over all 256 values, every <=4-byte sequence family inside strings and every truncation / byte substitution of the corpus is parsed under all four option records inside catch_unwind with a watchdog and an iterator that aborts after 1000 polls past the end; stack: every nesting word of length <= 3 over the 4 container-entry forms, pumped to depth N, closed / unclosed / wrongly closed, parsed and traversed in a thread with a small fixed stack".into();
